@@ -1022,3 +1022,8 @@ func init() {
 	mutant("setbytes-forgets-the-name", "small-primitives", "headerField.go", "	hf.SetKeyBytes(k)\n	hf.SetValueBytes(v)", "	hf.SetValueBytes(v)")
 	mutant("parseuint-starts-at-one", "small-primitives", "strings.go", "	n := 0\n	for _, c := range b {", "	n := 1\n	for _, c := range b {")
 }
+
+func init() {
+	mutant("goaway-last-stream-keeps-the-reserved-bit", "small-primitives", "goaway.go", "	ga.stream = stream & (1<<31 - 1)", "	ga.stream = stream & (1<<32 - 1)")
+	mutant("priority-dependency-loses-a-bit", "small-primitives", "priority.go", "	pry.stream = stream & (1<<31 - 1)", "	pry.stream = stream & (1<<30 - 1)")
+}
